@@ -201,6 +201,15 @@ def bytes_method(I, s, name):
                     I_.raise_builtin("UnicodeDecodeError", str(e))
             if enc in ("latin1", "latin-1", "iso-8859-1"):
                 return Sym(VStr(S(get_y(s.term))))
+            errors = a[1] if len(a) > 1 else k.get("errors", "strict")
+            if isinstance(enc, str) and enc.lower().replace("_", "-") in ("utf-8", "utf8", "ascii", "us-ascii") and isinstance(errors, str):
+                # a PARTIAL codec on unknown bytes (external function): with errors='strict' it either raises UnicodeDecodeError or
+                # returns some text; which bytes it refuses is not modelled (unknown predicate per call)
+                if errors == "strict" and I_.prover.fork(I_.fresh("undecodable_%s" % enc.lower().replace("-", ""), z3.BoolSort())):
+                    I_.raise_builtin("UnicodeDecodeError", "'%s' codec can't decode bytes" % enc)
+                r = I_.fresh_sym("decoded_text")
+                I_.prover.assume(is_str(r.term))
+                return r
             raise OutOfReach("bytes.decode(%r) symbolic" % (enc,))
         return Native("decode", decode)
     if name == "__class__":
